@@ -22,7 +22,7 @@ ASSUMPTIONS = [
 @st.composite
 def prop_case(draw, tier="quick"):
     hi = 16 if tier == "quick" else draw(st.sampled_from([16, 16, 28, 40]))
-    shape = draw(gen.shape2(2, hi))
+    shape = draw(gen.shape2(2, hi, big=0.02, big_pool=[63, 64, 65, 100, 128, 129]))
     samp = draw(gen.sampling(shape))
     wl = samp["wavelength"]
     nplanes = draw(st.sampled_from([1, 1, 2, 3]))
